@@ -29,7 +29,10 @@ SHAPES = {
                   "roles": [("lengthOuter", "lengthInner"), ("widthOuter", "widthInner")]},
     "SolidRectangle": {"dims": {"lengthOuter": (L, 1.5), "widthOuter": (L, 1.1), "mult": (N, 2.0)},
                        "roles": [("lengthOuter", "widthOuter"), ("widthOuter", "lengthOuter")]},
-    "Square": {"dims": {"widthOuter": (L, 1.4), "widthInner": (L, 0.4), "mult": (N, 2.0)}, "roles": [("widthOuter", "widthInner")]},
+    # a Square is a Rectangle whose lengths equal its widths: the constructor stores lengthOuter / lengthInner as well
+    # (inherited dimensions its own area formula does not use); they are lengths and start at the constructor's widths
+    "Square": {"dims": {"widthOuter": (L, 1.4), "widthInner": (L, 0.4), "mult": (N, 2.0)}, "roles": [("widthOuter", "widthInner")],
+               "aliases": {"lengthOuter": "widthOuter", "lengthInner": "widthInner"}},
     "Triangle": {"dims": {"base": (L, 1.5), "height": (L, 1.1), "mult": (N, 2.0)}, "roles": [("base", "height"), ("height", "base")]},
     "HoledHexagon": {"dims": {"op": (L, 1.4), "holeOD": (L, 0.4), "nHoles": (N, 1.0), "mult": (N, 2.0)}, "roles": [("op", "holeOD")]},
     "HexHoledCircle": {"dims": {"od": (L, 1.4), "holeOP": (L, 0.4), "mult": (N, 2.0)}, "roles": [("od", "holeOP")]},
@@ -62,6 +65,39 @@ VALUES = {
 }
 
 
+def inherited_dims(cls):
+    """Dimension names of the class and of every base class (DIMENSION_NAMES along the MRO), without modArea."""
+    names = []
+    for k in cls.__mro__:
+        for d in getattr(k, "DIMENSION_NAMES", ()):
+            if d != "modArea" and d not in names:
+                names.append(d)
+    return names
+
+
+def extra_dims(shape, comp):
+    """Inherited dimensions that are not constructor arguments of the shape, classified on a constructed instance:
+    {"alias": {name: constructor dimension it starts equal to}, "zero": [names stored as 0], "unset": [names never assigned]}.
+    Raises ValueError for an inherited dimension that carries a value the table does not explain."""
+    spec = SHAPES[shape]
+    out = {"alias": dict(spec.get("aliases", {})), "zero": [], "unset": []}
+    for d in inherited_dims(type(comp)):
+        if d in spec["dims"] or d in out["alias"]:
+            continue
+        try:
+            v = comp.p[d]
+        except Exception:  # noqa: BLE001  ParameterError: never assigned
+            out["unset"].append(d)
+            continue
+        if v is None:
+            out["unset"].append(d)
+        elif isinstance(v, (int, float)) and v == 0:
+            out["zero"].append(d)
+        else:
+            raise ValueError("%s: inherited dimension %s = %r has no entry in the dimension table" % (shape, d, v))
+    return out
+
+
 def shape_classes():
     """(covered, excluded, problems): registered 2-D classes against the table; problems must be empty."""
     armi_ready()
@@ -83,6 +119,11 @@ def shape_classes():
         if sorted(dims) != sorted(SHAPES[name]["dims"]):
             problems.append("%s: DIMENSION_NAMES %s differ from the table %s" % (name, dims, sorted(SHAPES[name]["dims"])))
             continue
+        try:    # every inherited dimension is a table length / count, an alias, stored as zero, or never assigned
+            extra_dims(name, build_component(name, SHAPES[name]["roles"][0], "Custom", 25.0, 25.0, "probe"))
+        except ValueError as ex:
+            problems.append(str(ex))
+            continue
         covered.append(name)
     n3d = sum(1 for c in ComponentType.TYPES.values() if c.is3D)
     return covered, excluded, problems, n3d
@@ -93,6 +134,17 @@ def class_of(name):
     from armi.reactor import components
 
     return getattr(components, name)
+
+
+def ctor_dims(shape, role, comp_index=1):
+    """Constructor dimension values: role dimensions from VALUES[(comp_index, e1/e2/n)][0], the others nominal."""
+    spec = SHAPES[shape]
+    e1, e2 = role
+    kw = {}
+    for d, (_, nominal) in spec["dims"].items():
+        kw[d] = VALUES[(comp_index, "e1")][0] if d == e1 else VALUES[(comp_index, "e2")][0] if d == e2 else (
+            VALUES[(comp_index, "n")][0] if d == "mult" else nominal)
+    return kw
 
 
 def build_component(shape, role, material, tin, thot, cname, values=None, comp_index=1):
